@@ -15,85 +15,10 @@
    Python ints are Z.  Memory is a little-endian list of bytes (x86-64).  A result is Ok, a Python
    exception class, or UB (C undefined behaviour / Py_FatalError) — never totalised away. *)
 From Coq Require Import ZArith List Bool String.
+From Cffi Require Export C03.Mem C03.Store.
 From Cffi Require Import C03.CExpr C03.Gen.
 Import ListNotations.
 Open Scope Z_scope.
-
-Inductive exc := OverflowError | TypeError.
-Inductive res (A : Type) := Ok (a : A) | Err (e : exc) | UB.
-Arguments Ok {A} a.
-Arguments Err {A} e.
-Arguments UB {A}.
-
-(* ---- CPython conversions of an int object *)
-(* PyLong_AsLongLong *)
-Definition as_longlong (v : Z) : res Z :=
-  if (- 2 ^ 63 <=? v) && (v <? 2 ^ 63) then Ok v else Err OverflowError.
-(* _my_PyLong_AsUnsignedLongLong(ob, 1): negative -> OverflowError, else PyLong_AsUnsignedLongLong *)
-Definition as_ulonglong_strict (v : Z) : res Z :=
-  if v <? 0 then Err OverflowError
-  else if v <? 2 ^ 64 then Ok v else Err OverflowError.
-(* _my_PyLong_AsUnsignedLongLong(ob, 0): PyLong_AsUnsignedLongLongMask *)
-Definition as_ulonglong_mask (v : Z) : res Z := Ok (v mod 2 ^ 64).
-
-(* ---- raw memory access *)
-Fixpoint encode_le (n : nat) (z : Z) : list Z :=
-  match n with
-  | O => []
-  | S k => z mod 256 :: encode_le k (z / 256)
-  end.
-Fixpoint decode_le (bs : list Z) : Z :=
-  match bs with
-  | [] => 0
-  | b :: r => b + 256 * decode_le r
-  end.
-
-(* write_raw_integer_data(target, (unsigned long long)source, size): `type r = (type)source` *)
-Definition write_raw (size : nat) (source : Z) : list Z := encode_le size (source mod 2 ^ 64).
-Definition read_raw_unsigned (bs : list Z) : Z := decode_le bs.
-Definition read_raw_signed (bs : list Z) : Z :=
-  let n := 8 * Z.of_nat (List.length bs) in
-  let u := decode_le bs in
-  if u <? 2 ^ (n - 1) then u else u - 2 ^ n.
-
-(* ---- integer ctypes: size in bytes, CT_PRIMITIVE_SIGNED?, CT_IS_BOOL? (enums = their base type) *)
-Record ity := mk_ity { isize : nat; isigned : bool; ibool : bool }.
-Definition tbits (T : ity) : Z := 8 * Z.of_nat (isize T).
-
-Definition in_range (T : ity) (v : Z) : bool :=
-  if ibool T then (0 <=? v) && (v <=? 1)
-  else if isigned T then (- 2 ^ (tbits T - 1) <=? v) && (v <=? 2 ^ (tbits T - 1) - 1)
-  else (0 <=? v) && (v <=? 2 ^ tbits T - 1).
-
-(* what reading the location gives (convert_to_object, integer branches) *)
-Definition read_int (T : ity) (bs : list Z) : Z :=
-  if isigned T then read_raw_signed bs else read_raw_unsigned bs.
-
-(* ---- convert_from_object, integer branches (:1714).  Returns the result and the new content
-        of the target (`data`, exactly ct_size bytes). *)
-Definition convert_from_object_int (T : ity) (v : Z) (data : list Z) : res unit * list Z :=
-  if isigned T then
-    match as_longlong v with
-    | Ok value =>
-        let buf := write_raw (isize T) value in
-        if negb (value =? read_raw_signed buf) then (Err OverflowError, data)
-        else (Ok tt, write_raw (isize T) value)
-    | Err e => (Err e, data)
-    | UB => (UB, data)
-    end
-  else
-    match as_ulonglong_strict v with
-    | Ok value =>
-        if ibool T then
-          if 1 <? value then (Err OverflowError, data)
-          else (Ok tt, write_raw (isize T) value)
-        else
-          let buf := write_raw (isize T) value in
-          if negb (value =? read_raw_unsigned buf) then (Err OverflowError, data)
-          else (Ok tt, write_raw (isize T) value)
-    | Err e => (Err e, data)
-    | UB => (UB, data)
-    end.
 
 (* ---- API mode: _cffi_to_c_iN / _cffi_to_c_uN from the regenerated macro parts *)
 Definition run_conv (c : conv_fn) (v : Z) : res Z :=
@@ -247,6 +172,11 @@ Definition store_obs (size : Z) (sg bl : bool) (v : Z) (data : list Z) : Z * lis
   | (Ok _, bs) => (0, bs)
   | (Err e, bs) => (exc_code e, bs)
   | (UB, bs) => (99, bs)
+  end.
+(* same with the old/new target bytes given as little-endian numbers (compact case files) *)
+Definition store_obs_z (size : Z) (sg bl : bool) (v : Z) (old : Z) : Z * Z :=
+  match store_obs size sg bl v (encode_le (Z.to_nat size) old) with
+  | (st, bs) => (st, decode_le bs)
   end.
 Definition res_obs (r : res Z) : Z * Z :=
   match r with Ok x => (0, x) | Err e => (exc_code e, 0) | UB => (99, 0) end.
